@@ -121,7 +121,7 @@ class G:
     def __init__(self, rnd, max_depth=3):
         self.r = rnd
         self.max_depth = max_depth
-        self.max_blocks = 22
+        self.max_blocks = 16
         self.bits = 0
         self.nid = 0
         self.nraise = 0
